@@ -11,6 +11,7 @@ import logging
 from dataclasses import dataclass
 from typing import TYPE_CHECKING
 
+from happysimulator.components.queue import QueueNotifyEvent
 from happysimulator.components.queue_policy import FIFOQueue, QueuePolicy
 from happysimulator.components.queued_resource import QueuedResource
 from happysimulator.core.event import Event
@@ -139,6 +140,9 @@ class ShiftedServer(QueuedResource):
         # On first real event, schedule the first shift change
         if not self._initialized:
             self._initialized = True
+            # Shift changes before the first arrival were never delivered:
+            # start from the capacity the schedule gives for *now*.
+            self._current_capacity = self.schedule.capacity_at(self.now.to_seconds())
             next_event = self._schedule_next_shift()
             result = super().handle_event(event)
             if next_event and isinstance(result, list):
@@ -163,7 +167,15 @@ class ShiftedServer(QueuedResource):
 
         # Schedule the next shift change (self-perpetuating)
         next_event = self._schedule_next_shift()
-        return [next_event] if next_event else []
+        events = [next_event] if next_event else []
+
+        # More workers came on shift: nobody else tells the driver that the
+        # waiting items can now be served.
+        if new_capacity > old_capacity and self.depth > 0:
+            events.append(
+                QueueNotifyEvent(time=self.now, target=self.driver, queue_entity=self.queue)
+            )
+        return events
 
     def _schedule_next_shift(self) -> Event | None:
         """Schedule only the next transition event."""
